@@ -22,16 +22,18 @@ CONSTANTS NA,          \* accounts 1..NA
           Assets,      \* e.g. {"nria", "alt", "big"}
           BigCap,      \* model stand-in for u128::MAX for asset "big" (real amount = model * floor(u128::MAX / BigCap))
           Profile,     \* selects initial state classes and the transaction universe
-          MaxTxs       \* transactions per behaviour (block)
+          MaxTxs,      \* transactions per behaviour (block)
+          BlockMode    \* TRUE: every transaction of the block is constructed against the block's start state, as
+                       \* finalize_block does (construct_checked_txs before executing any of them)
 
 Acct == 1..NA
 NoAcct == 0
 Events == {"e1", "e2"}
 Kinds == {"transfer", "rollup_data", "bridge_lock", "bridge_unlock", "bridge_transfer", "bridge_sudo_change",
           "init_bridge", "sudo_change", "fee_change", "fee_asset_change", "ibc_sudo_change", "ibc_relayer_change",
-          "validator_update"}
+          "validator_update", "ics20_withdrawal", "ibc_relay"}
 FeeBearing == {"transfer", "rollup_data", "bridge_lock", "bridge_unlock", "bridge_transfer", "bridge_sudo_change",
-               "init_bridge"}
+               "init_bridge", "ics20_withdrawal"}
 
 Cap(asset) == IF asset = "big" THEN BigCap ELSE 1000000
 
@@ -63,6 +65,12 @@ FeeAssetChange(add, asset) == [Act("fee_asset_change") EXCEPT !.flag = add, !.as
 IbcSudoChange(n) == [Act("ibc_sudo_change") EXCEPT !.n1 = n]
 IbcRelayerChange(add, a) == [Act("ibc_relayer_change") EXCEPT !.flag = add, !.n1 = a]
 ValidatorUpdate(v, power) == [Act("validator_update") EXCEPT !.n1 = v, !.amt = power]
+\* ICS-20 withdrawal over channel-0 of `amt` of `asset`: from = the bridge account it is made for (NoAcct: the signer's
+\* own funds), ev = the rollup withdrawal event (bridge only), n1 = the return address named in the packet
+Ics20Withdrawal(asset, amt, from, ev, ret, fa) ==
+  [Act("ics20_withdrawal") EXCEPT !.asset = asset, !.amt = amt, !.from = from, !.ev = ev, !.n1 = ret, !.fa = fa]
+\* an IbcRelay action whose message penumbra refuses (after the Blackburn upgrade a non-fatal failure)
+IbcRelayBad == Act("ibc_relay")
 
 Group(a) == CASE a.k \in {"sudo_change", "ibc_sudo_change"} -> 1
               [] a.k \in {"ibc_relayer_change", "fee_change", "fee_asset_change"} -> 2
@@ -109,6 +117,7 @@ Deposit(s, b, asset, amt) == [s EXCEPT !.deps = Append(@, [b |-> b, asset |-> as
 \* Checks made once, when the CheckedAction is constructed (facts that cannot change afterwards)
 ImmutableOK(s, signer, a) ==
   CASE a.k = "rollup_data" -> a.sz > 0        \* "cannot have empty data for rollup data submission"
+    [] a.k = "ics20_withdrawal" -> a.amt > 0
     [] a.k = "bridge_lock" -> s.bridge[a.to].is /\ s.bridge[a.to].asset = a.asset
     [] a.k = "bridge_unlock" -> a.amt > 0 /\ s.bridge[a.from].is
     [] a.k = "bridge_transfer" ->
@@ -139,6 +148,10 @@ MutableOK(s, signer, a) ==
     [] a.k = "ibc_relayer_change" ->
          /\ s.ibcSudo = signer
          /\ IF a.flag THEN a.n1 \notin s.relayers ELSE a.n1 \in s.relayers
+    [] a.k = "ics20_withdrawal" ->
+         IF a.from = NoAcct THEN ~s.bridge[signer].is
+         ELSE s.bridge[a.from].is /\ s.bridge[a.from].wd = signer /\ <<a.from, a.ev>> \notin s.wdSeen
+    [] a.k = "ibc_relay" -> signer \in s.relayers
 
 \* execute of each CheckedAction variant, after the fee and the mutable checks
 Effect(s, signer, a) ==
@@ -170,6 +183,15 @@ Effect(s, signer, a) ==
     [] a.k = "ibc_relayer_change" ->
          Ok([s EXCEPT !.relayers = IF a.flag THEN @ \cup {a.n1} ELSE @ \ {a.n1}])
     [] a.k = "validator_update" -> Ok([s EXCEPT !.valUpd = @ \cup {<<a.n1, a.amt>>}])
+    [] a.k = "ics20_withdrawal" ->
+         \* the event is recorded, the paying account (the bridge, else the signer -- never the return address) is
+         \* debited, and the tokens, all of sequencer origin here, go into the channel's escrow
+         LET payer == IF a.from = NoAcct THEN signer ELSE a.from
+             s1 == IF a.from = NoAcct THEN s ELSE [s EXCEPT !.wdSeen = @ \cup {<<a.from, a.ev>>}]
+         IN Then(Debit(s1, payer, a.asset, a.amt),
+                 LAMBDA t : IF t.escrow[a.asset] + a.amt > Cap(a.asset) THEN Fail
+                            ELSE Ok([t EXCEPT !.escrow[a.asset] = @ + a.amt]))
+    [] a.k = "ibc_relay" -> Fail
 
 \* CheckedAction::pay_fees_and_execute
 ExecAction(s, signer, a) ==
@@ -208,6 +230,7 @@ BaseState ==
    bfees |-> [x \in Assets |-> 0],
    deps |-> <<>>,
    valUpd |-> {},
+   escrow |-> [x \in Assets |-> 0],
    charged |-> <<>>]
 
 NoTx == Tx(NoAcct, 0, <<>>)
@@ -224,7 +247,7 @@ FeesInit ==
      bn \in {0, 3, 100}, ba \in {0, 100}, bb \in {0, 2}, sd \in {1, 4}}
 FeesTxs ==
   {Tx(2, 0, <<a>>) : a \in
-     {Transfer(to, as, amt, fa) : to \in {1, 4}, as \in {"nria", "big"}, amt \in {0, 1, 2}, fa \in {"nria", "alt"}}
+     {Transfer(to, as, amt, fa) : to \in {1, 2, 4}, as \in {"nria", "big"}, amt \in {0, 1, 2}, fa \in {"nria", "alt"}}
      \cup {RollupData(sz, fa) : sz \in {0, 1, 3}, fa \in {"nria", "alt", "big"}}
      \cup {BridgeLock(3, "nria", amt, fa) : amt \in {0, 1}, fa \in {"nria", "alt"}}}
   \cup {Tx(2, 0, <<a, b>>) : a \in {Transfer(1, "nria", 1, "nria"), RollupData(1, "nria")},
@@ -241,14 +264,16 @@ AuthInit ==
                      !.bridge[4] = MkBridge("nria", 4, 4, FALSE)] :
      sd \in {1, 2}, isd \in {1, 2}, bs \in {1, 3}, bw \in {2, 3}}
 AuthActs ==
-  {Transfer(1, "nria", 1, "nria"), BridgeLock(3, "nria", 1, "nria"),
+  {Transfer(1, "nria", 1, "nria"), Transfer(2, "nria", 1, "nria"), BridgeLock(3, "nria", 1, "nria"),
    BridgeUnlock(3, 1, 1, "e1", "nria"), BridgeUnlock(4, 1, 1, "e1", "nria"),
    BridgeTransfer(3, 4, 1, "e1", "nria"),
    BridgeSudoChange(3, 2, NoAcct, FALSE, "nria"), BridgeSudoChange(3, NoAcct, 1, FALSE, "nria"),
    BridgeSudoChange(3, NoAcct, NoAcct, TRUE, "nria"),
    InitBridge("alt", NoAcct, 2, "nria"),
    SudoChange(2), SudoChange(3), FeeChange("transfer", 0, 0), FeeAssetChange(FALSE, "alt"), FeeAssetChange(TRUE, "big"),
-   IbcSudoChange(3), IbcRelayerChange(TRUE, 1), IbcRelayerChange(FALSE, 4), ValidatorUpdate(1, 5)}
+   IbcSudoChange(3), IbcRelayerChange(TRUE, 1), IbcRelayerChange(FALSE, 4), ValidatorUpdate(1, 5),
+   Ics20Withdrawal("nria", 2, NoAcct, "e1", 1, "nria"), Ics20Withdrawal("nria", 2, 3, "e1", 1, "nria"),
+   Ics20Withdrawal("nria", 2, 4, "e2", 3, "nria"), IbcRelayBad}
 AuthTxs == {Tx(sg, n, <<a>>) : sg \in Acct, n \in {0, 1}, a \in AuthActs}
 
 \* "atomic": C03 — bundles failing at every index; nonces below / at / above the account nonce
@@ -257,7 +282,7 @@ AtomicInit ==
                      !.bridge[3] = MkBridge("nria", 3, 2, FALSE), !.bridge[4] = MkBridge("nria", 4, 4, dis)] :
      bn \in {2, 4, 100}, nn \in {0, 1}, dis \in BOOLEAN}
 AtomicActs ==
-  {Transfer(1, "nria", 1, "nria"), Transfer(1, "nria", 3, "nria"), RollupData(1, "nria"),
+  {Transfer(1, "nria", 1, "nria"), Transfer(1, "nria", 3, "nria"), Transfer(2, "nria", 2, "nria"), RollupData(1, "nria"),
    BridgeLock(4, "nria", 1, "nria"), BridgeUnlock(3, 1, 1, "e1", "nria"), BridgeUnlock(3, 1, 200, "e2", "nria"),
    BridgeTransfer(3, 4, 1, "e2", "nria"), ValidatorUpdate(1, 5), Transfer(4, "big", 1, "nria")}
 AtomicTxs ==
@@ -277,14 +302,30 @@ BridgeActs ==
   {BridgeLock(3, "nria", 1, "nria"), BridgeLock(4, "nria", 2, "nria"), BridgeLock(4, "big", 2, "nria"),
    BridgeUnlock(3, 1, 1, "e1", "nria"), BridgeUnlock(3, 1, 2, "e2", "nria"), BridgeUnlock(3, 4, 1, "e2", "nria"),
    BridgeTransfer(3, 4, 1, "e1", "nria"), BridgeTransfer(3, 4, 2, "e2", "nria"), BridgeTransfer(4, 3, 1, "e1", "nria"),
-   BridgeTransfer(3, 3, 1, "e2", "nria"), Transfer(3, "nria", 1, "nria")}
+   BridgeTransfer(3, 3, 1, "e2", "nria"), Transfer(3, "nria", 1, "nria"),
+   Ics20Withdrawal("nria", 1, 3, "e1", 3, "nria"), Ics20Withdrawal("nria", 1, 3, "e2", 1, "nria")}
 BridgeTxs == {Tx(2, n, <<a>>) : n \in {0, 1}, a \in BridgeActs}
              \cup {Tx(2, n, <<a, b>>) : n \in {0, 1}, a \in BridgeActs, b \in BridgeActs}
 
+\* "replay": C03 / C04 — two-transaction blocks explored exhaustively: the same transaction twice, a transaction built
+\* before its nonce / withdrawal event / authority was used up by the previous one, a failing bundle after deposits,
+\* fees and validator updates have already accumulated in the block, a refused IBC relay after a paid action
+ReplayInit ==
+  {[BaseState EXCEPT !.bridge[3] = MkBridge("nria", 3, 2, FALSE), !.bridge[4] = MkBridge("nria", 4, 2, FALSE),
+                     !.relayers = {2}, !.sudo = sd] : sd \in {1, 2}}
+ReplayActs ==
+  {Transfer(1, "nria", 1, "nria"), BridgeLock(4, "nria", 1, "nria"), BridgeUnlock(3, 1, 1, "e1", "nria"),
+   BridgeTransfer(3, 4, 1, "e1", "nria"), Ics20Withdrawal("nria", 1, 3, "e1", 1, "nria"),
+   ValidatorUpdate(1, 5), IbcRelayBad, Transfer(1, "nria", 200, "nria")}
+ReplayTxs ==
+  {Tx(2, n, <<a>>) : n \in {0, 1}, a \in ReplayActs}
+  \cup {Tx(2, n, <<a, b>>) : n \in {0, 1}, a \in {Transfer(1, "nria", 1, "nria"), BridgeLock(4, "nria", 1, "nria"), ValidatorUpdate(1, 5)},
+                             b \in {IbcRelayBad, Transfer(1, "nria", 200, "nria"), BridgeUnlock(3, 1, 1, "e1", "nria")}}
+
 InitStates == CASE Profile = "fees" -> FeesInit [] Profile = "auth" -> AuthInit
-                [] Profile = "atomic" -> AtomicInit [] Profile = "bridge" -> BridgeInit
+                [] Profile = "atomic" -> AtomicInit [] Profile = "bridge" -> BridgeInit [] Profile = "replay" -> ReplayInit
 Txs == CASE Profile = "fees" -> FeesTxs [] Profile = "auth" -> AuthTxs
-         [] Profile = "atomic" -> AtomicTxs [] Profile = "bridge" -> BridgeTxs
+         [] Profile = "atomic" -> AtomicTxs [] Profile = "bridge" -> BridgeTxs [] Profile = "replay" -> ReplayTxs
 
 ASSUME \A tx \in Txs : WellFormedTx(tx)
 
@@ -297,11 +338,11 @@ ExecTx(tx, stale) ==
   /\ ntx < MaxTxs /\ ntx' = ntx + 1
   /\ LET sc == IF stale THEN prev ELSE st IN
      IF ~ConstructOK(sc, tx)
-       THEN /\ st' = [st EXCEPT !.charged = <<>>] /\ prev' = st
+       THEN /\ st' = [st EXCEPT !.charged = <<>>] /\ prev' = IF BlockMode THEN prev ELSE st
             /\ last' = [op |-> "tx", tx |-> tx, stale |-> stale, out |-> "reject_construct"]
        ELSE LET r == ExecTxOn(st, tx) IN
             /\ st' = IF r.ok THEN r.s ELSE [st EXCEPT !.charged = <<>>]
-            /\ prev' = st
+            /\ prev' = IF BlockMode THEN prev ELSE st
             /\ last' = [op |-> "tx", tx |-> tx, stale |-> stale, out |-> IF r.ok THEN "ok" ELSE "fail_exec"]
 
 \* App::end_block: the block's fees go to the sudo address as it is at the end of the block
@@ -312,7 +353,9 @@ EndBlock ==
   /\ prev' = st /\ ntx' = MaxTxs
   /\ last' = [op |-> "end_block", tx |-> NoTx, stale |-> FALSE, out |-> "ok"]
 
-Next == \/ \E tx \in Txs, stale \in BOOLEAN : (stale => last.op = "tx") /\ ExecTx(tx, stale)
+Next == \/ \E tx \in Txs, stale \in BOOLEAN :
+              /\ IF BlockMode THEN stale ELSE (stale => last.op = "tx")
+              /\ ExecTx(tx, stale)
         \/ EndBlock
 Spec == Init /\ [][Next]_vars
 
@@ -320,7 +363,7 @@ Spec == Init /\ [][Next]_vars
 (* Properties *)
 RECURSIVE SumF(_, _)
 SumF(f, S) == IF S = {} THEN 0 ELSE LET x == CHOOSE y \in S : TRUE IN f[x] + SumF(f, S \ {x})
-Supply(s, x) == SumF([a \in Acct |-> s.bal[a][x]], Acct) + s.bfees[x]
+Supply(s, x) == SumF([a \in Acct |-> s.bal[a][x]], Acct) + s.bfees[x] + s.escrow[x]
 
 IsTx == last'.op = "tx"
 TxOk == IsTx /\ last'.out = "ok"
@@ -376,17 +419,19 @@ DepositsBacked == [][IsTx =>
            IN dep > 0 => /\ st.bridge[b].is /\ st.bridge[b].asset = x
                          \* gross credits >= deposits: the bridge may also pay out in the same tx
                          /\ st'.bal[b][x] + SumF([i \in 1..Len(TheTx.acts) |->
-                                IF TheTx.acts[i].k \in {"bridge_unlock", "bridge_transfer"} /\ TheTx.acts[i].from = b
+                                IF TheTx.acts[i].k \in {"bridge_unlock", "bridge_transfer", "ics20_withdrawal"} /\ TheTx.acts[i].from = b
                                   THEN TheTx.acts[i].amt ELSE 0], 1..Len(TheTx.acts))
                               + (IF b = TheTx.signer THEN SumF([i \in 1..Len(st'.charged) |-> IF st'.charged[i].asset = x THEN st'.charged[i].amt ELSE 0], 1..Len(st'.charged)) ELSE 0)
                             >= st.bal[b][x] + dep]_vars
 WithdrawalOnce == [][IsTx =>
       /\ st.wdSeen \subseteq st'.wdSeen
       /\ \A i \in 1..Len(TheTx.acts) :
-           (TxOk /\ TheTx.acts[i].k \in {"bridge_unlock", "bridge_transfer"}) =>
+           (TxOk /\ (TheTx.acts[i].k \in {"bridge_unlock", "bridge_transfer"}
+                     \/ (TheTx.acts[i].k = "ics20_withdrawal" /\ TheTx.acts[i].from # NoAcct))) =>
               /\ <<TheTx.acts[i].from, TheTx.acts[i].ev>> \notin st.wdSeen
               /\ <<TheTx.acts[i].from, TheTx.acts[i].ev>> \in st'.wdSeen
-              /\ \A j \in 1..Len(TheTx.acts) : (j # i /\ TheTx.acts[j].k \in {"bridge_unlock", "bridge_transfer"}) =>
+              /\ \A j \in 1..Len(TheTx.acts) : (j # i /\ TheTx.acts[j].k \in {"bridge_unlock", "bridge_transfer", "ics20_withdrawal"}
+                                                  /\ TheTx.acts[j].from # NoAcct) =>
                     <<TheTx.acts[j].from, TheTx.acts[j].ev>> # <<TheTx.acts[i].from, TheTx.acts[i].ev>>]_vars
 
 TypeOK == /\ \A a \in Acct, x \in Assets : st.bal[a][x] >= 0 /\ st.bal[a][x] <= Cap(x)
@@ -397,7 +442,7 @@ TypeOK == /\ \A a \in Acct, x \in Assets : st.bal[a][x] >= 0 /\ st.bal[a][x] <= 
 ProjBridge(b) == IF b.is THEN b ELSE [is |-> FALSE]
 Proj(s) == [bal |-> s.bal, nonce |-> s.nonce, sudo |-> s.sudo, ibcSudo |-> s.ibcSudo, relayers |-> s.relayers,
             feeAssets |-> s.feeAssets, fee |-> s.fee, bridge |-> [a \in Acct |-> ProjBridge(s.bridge[a])],
-            wdSeen |-> s.wdSeen, bfees |-> s.bfees, deps |-> s.deps, valUpd |-> s.valUpd]
+            wdSeen |-> s.wdSeen, bfees |-> s.bfees, deps |-> s.deps, valUpd |-> s.valUpd, escrow |-> s.escrow]
 LogStep == PrintT(<<"T", ToJson([s |-> Proj(st), sc |-> IF last'.stale THEN Proj(prev) ELSE "same",
                                  a |-> last', t |-> Proj(st'), charged |-> st'.charged])>>)
 =============================================================================
